@@ -312,6 +312,31 @@ def rule_saptable(report, prog, res):
     report.floor('C09-R5', n, 2)
 
 
+def rule_shutdown_order(report, prog, res):
+    """R7: link termination closes sockets on the run-loop thread.  DataLinkConnection.close() performs the graceful DISC / DM
+    handshake (and blocks in recv() for the answer) only while the socket is bound; the answer could only be delivered by the very
+    thread that is blocked.  ServiceAccessPoint.shutdown() therefore unbinds every socket before closing it."""
+    f = prog.func('nfc.llcp.llc.ServiceAccessPoint.shutdown')
+    cfg = cfg_of(f)
+    closes = [c for c in walk_no_nested(f.node) if isinstance(c, ast.Call) and isinstance(c.func, ast.Attribute) and c.func.attr == 'close']
+    n = 0
+    for c in closes:
+        n += 1
+        recv = norm(c.func.value)
+        unb = [cfg_node_for(cfg, u) for u in walk_no_nested(f.node) if isinstance(u, ast.Call) and norm(u.func) == recv + '.bind' and
+               len(u.args) == 1 and norm(u.args[0]) == 'None']
+        tgt = cfg_node_for(cfg, c)
+        okk = bool(unb) and tgt not in cfg.reachable(cfg.entry, avoid_nodes=unb)
+        report.check(okk, 'C09-R7', key(f.qname, 'socket is unbound before it is closed', c), f.loc(c),
+                     '%s.close() can run while the socket is still bound: an established data link connection then sends DISC and waits for the '
+                     'DM answer on the run-loop thread, which is the thread that would have to deliver it (terminate() never returns)' % recv)
+    report.floor('C09-R7', n, 1)
+    d = prog.func('nfc.llcp.tco.DataLinkConnection.close')
+    g = [i for i in walk_no_nested(d.node) if isinstance(i, ast.If) and 'self.is_bound' in norm(i.test) and 'ESTABLISHED' in norm(i.test)]
+    report.check(len(g) == 1, 'C09-R7', key(d.qname, 'graceful disconnect only while the socket is bound'), d.loc(),
+                 'DataLinkConnection.close no longer skips the DISC handshake for an unbound socket')
+
+
 def rule_service_threads(report, prog, res):
     for q, loop_fn, serve_fn in (('nfc.snep.server.SnepServer', '_listen', '_serve'),
                                  ('nfc.handover.server.HandoverServer', 'listen', 'serve')):
@@ -351,6 +376,7 @@ def run(report, prog, tier):
     rule_waits(report, prog, res)
     rule_saptable(report, prog, res)
     rule_service_threads(report, prog, res)
+    rule_shutdown_order(report, prog, res)
     report.trusted += ['interface summary: ContactlessFrontend.exchange raises only CommunicationError subclasses or IOError (property C13)',
                        'threading.RLock is re-entrant: a caller holding it keeps it across super() calls']
     report.assumptions += ['terminate(), dispatch() and collect() run in the link thread only']
@@ -498,4 +524,9 @@ MUTANTS = [
         finally:
             listen_socket.close()""", """        finally:
             listen_socket.close()""", 'C09-R6'),
+    ('sap-shutdown-closes-before-unbind', 'nfc.llcp.llc', """            socket.bind(None)
+            socket.close()""", """            socket.close()
+            socket.bind(None)""", 'C09-R7'),
+    ('sap-shutdown-without-unbind', 'nfc.llcp.llc', """            socket.bind(None)
+            socket.close()""", """            socket.close()""", 'C09-R7'),
 ]
